@@ -62,7 +62,7 @@ def outside_domain(o):
 def where_crashed(text):
     m = re.search(r"(panic: [^\n]*)", text)
     p = m.group(1)[:100] if m else ""
-    loc = re.findall(r"/repo/([\w/.]+\.go:\d+)", text)
+    loc = re.findall(re.escape(REPO) + r"/([\w/.]+\.go:\d+)", text)
     return p, (loc[0] if loc else "")
 
 
